@@ -11,6 +11,13 @@
 // PART 1: rgb8  -> pixel<float>-> rgb32f,  integer-valued float kernels (exact below 2^24)
 // PART 2: gray32f -> pixel<float> -> gray32f, fractional kernels (tolerance); convolve_2d; extend_*
 // PART 3: gray16s -> pixel<int> -> gray32s, int kernels          (exact, negative samples)
+// PART 4..8: mixed channel orders (exact): bgr8 -> rgb accum -> rgb32f; rgb8 -> rgb accum -> bgr32f;
+//            bgr8 -> rgb accum -> bgr32f; rgba8 -> rgba accum -> abgr32f; planar rgb8 -> rgb accum -> bgr32f.
+//            Source channels get independent contents and the comparison is per COLOUR: the oracle reads the
+//            source channel of a colour at its position in the source layout and writes the expected sum at that
+//            colour's position in the destination layout (pixel_multiplies_scalar_t, pixel_assigns_t, pixel_plus_t,
+//            pixel_zeros_t are all reached with differing layouts by one of the combinations).
+// PART 9: convolve_2d for mixed channel orders (bgr8 -> rgb32f, rgba8 -> abgr32f, planar rgb8 -> bgr32f)
 #include <boost/gil.hpp>
 #include <boost/gil/image_processing/convolve.hpp>
 #include <boost/gil/image_processing/kernel.hpp>
@@ -68,6 +75,47 @@ struct R_g32f {
     static double gen_src(vh::rng& r) { return (double)(float)r.unit(); }
     static kval gen_k(vh::rng& r) { return (float)(r.unit() * 2.0 - 1.0); }
 };
+
+// mixed channel orders: integer-valued float taps, exact
+#define C15_MIXED(NAME, TAG, SRCIMG, ACCLAYOUT, DSTPIX)                                   \
+    struct NAME {                                                                         \
+        typedef SRCIMG src_image;                                                         \
+        typedef DSTPIX dst_pixel;                                                         \
+        typedef gil::pixel<float, ACCLAYOUT> accum;                                       \
+        typedef float kval;                                                               \
+        static const char* name() { return TAG; }                                         \
+        static const bool exact = true;                                                   \
+        static double gen_src(vh::rng& r) { return (double)r.below(256); }                \
+        static kval gen_k(vh::rng& r) { return (float)r.range(-4, 4); }                   \
+    };
+C15_MIXED(R_bgr_rgb, "bgr8-to-rgb32f", gil::bgr8_image_t, gil::rgb_layout_t, gil::rgb32f_pixel_t)
+C15_MIXED(R_rgb_bgr, "rgb8-to-bgr32f", gil::rgb8_image_t, gil::rgb_layout_t, gil::bgr32f_pixel_t)
+C15_MIXED(R_bgr_rgbacc_bgr, "bgr8-rgbacc-bgr32f", gil::bgr8_image_t, gil::rgb_layout_t, gil::bgr32f_pixel_t)
+C15_MIXED(R_rgba_abgr, "rgba8-to-abgr32f", gil::rgba8_image_t, gil::rgba_layout_t, gil::abgr32f_pixel_t)
+C15_MIXED(R_planar_bgr, "rgb8planar-to-bgr32f", gil::rgb8_planar_image_t, gil::rgb_layout_t, gil::bgr32f_pixel_t)
+
+// position in memory (operator[] index) of every colour of pixel type P, in the order of P's colour space
+template <class P, int K> struct sem_fill {
+    static void go(P& p) { gil::semantic_at_c<K>(p) = typename gil::channel_type<P>::type((typename gil::channel_traits<typename gil::channel_type<P>::type>::value_type)(K + 1)); sem_fill<P, K - 1>::go(p); }
+};
+template <class P> struct sem_fill<P, -1> { static void go(P&) {} };
+template <class P> std::vector<int> phys_of_colour() {
+    const int NC = gil::num_channels<P>::value;
+    P p;
+    sem_fill<P, NC - 1>::go(p);
+    std::vector<int> m((size_t)NC, -1);
+    for (int c = 0; c < NC; ++c) m[(size_t)((int)cu::num(p[c]) - 1)] = c;
+    return m;
+}
+// channel values of a view in raster order (works for planar views too): used to detect a modified source
+template <class View> std::vector<double> values_of(View const& v) {
+    std::vector<double> out;
+    const int NC = gil::num_channels<View>::value;
+    for (int y = 0; y < v.height(); ++y)
+        for (int x = 0; x < v.width(); ++x)
+            for (int c = 0; c < NC; ++c) out.push_back(cu::num(v(x, y)[c]));
+    return out;
+}
 
 template <class Image> void fill_src(Image& img, vh::rng& r, double (*gen)(vh::rng&)) {
     typedef typename Image::value_type P;
@@ -141,7 +189,8 @@ template <class R> void one_exec(int fn, boundary_option opt, int w, int h, std:
     fill_src(outer, r, &R::gen_src);
     const int ox = cols ? 0 : pb, oy = cols ? pb : 0;
     auto sv = gil::subimage_view(gil::const_view(outer), ox, oy, w, h);
-    std::vector<unsigned char> src_snap = cu::snapshot(outer);
+    std::vector<double> src_snap = values_of(gil::const_view(outer));
+    const std::vector<int> sp = phys_of_colour<src_pixel>(), dp = phys_of_colour<typename R::dst_pixel>();   // colour -> memory position
 
     cu::arena<typename R::dst_pixel> ar(w, h, r);
     auto dv = ar.dst();
@@ -174,7 +223,7 @@ template <class R> void one_exec(int fn, boundary_option opt, int w, int h, std:
             // output_*: never used (the pixel is a border pixel)
         }
         int x = cols ? j : i, y = cols ? i : j;
-        return cu::num(ov(ox + x, oy + y)[c]);
+        return cu::num(ov(ox + x, oy + y)[sp[(size_t)c]]);      // c is a colour index
     };
     const bool out_opt = opt == boundary_option::output_ignore || opt == boundary_option::output_zero;
     for (int y = 0; y < h; ++y)
@@ -197,7 +246,7 @@ template <class R> void one_exec(int fn, boundary_option opt, int w, int h, std:
                     maxabs = std::max(maxabs, std::fabs(s));
                     acc += s * (double)kv[k];
                 }
-                ar.set(x, y, c, acc, leaves ? cu::K_B : cu::K_A);
+                ar.set(x, y, dp[(size_t)c], acc, leaves ? cu::K_B : cu::K_A);
             }
         }
     double tol = R::exact ? 0.0 : 1e-5 * sumabs * std::max(maxabs, 1.0) + 1e-12;
@@ -208,7 +257,7 @@ template <class R> void one_exec(int fn, boundary_option opt, int w, int h, std:
     if (res.bad[cu::K_A]) vh::viol(vh::cat("interior-sum.", cls, ".", szc), ctx + res.first[cu::K_A]);
     if (res.bad[cu::K_B]) vh::viol(vh::cat("edge-value.", cls, ".", szc), ctx + res.first[cu::K_B]);
     if (res.bad[cu::K_UNTOUCHED]) vh::viol(vh::cat("untouched.", cls, ".", szc), ctx + res.first[cu::K_UNTOUCHED]);
-    if (!cu::same_bytes(outer, src_snap)) vh::viol(vh::cat("src-modified.", cls), ctx + "source bytes changed");
+    if (values_of(gil::const_view(outer)) != src_snap) vh::viol(vh::cat("src-modified.", cls), ctx + "source values changed");
     vh::evals(1);
     if (first_rep) vh::distinct(1);      // repetitions differ only in seeded contents: not counted as distinct tuples
     vh::count("dst_pixels_checked", (uint64_t)res.checked);
@@ -247,7 +296,7 @@ template <class R> void run_1d() {
         }
 }
 
-#if C15_PART == 2
+#if C15_PART == 2 || C15_PART == 9
 // ---- convolve_2d ----------------------------------------------------------------------
 template <class SrcImage, class DstPixel, class Kernel>
 void conv2d_exec(Kernel const& ker, std::vector<float> const& kv, int n, int cy, int cx, int w, int h, bool exact, vh::rng& r,
@@ -256,7 +305,8 @@ void conv2d_exec(Kernel const& ker, std::vector<float> const& kv, int n, int cy,
     const int NC = gil::num_channels<src_pixel>::value;
     SrcImage src(w, h);
     fill_src(src, r, &R_g8i::gen_src);
-    std::vector<unsigned char> snap = cu::snapshot(src);
+    std::vector<double> snap = values_of(gil::const_view(src));
+    const std::vector<int> sp = phys_of_colour<src_pixel>(), dp = phys_of_colour<DstPixel>();   // colour -> memory position
     cu::arena<DstPixel> ar(w, h, r);
     gil::detail::convolve_2d(gil::const_view(src), ker, ar.dst());
     auto sv = gil::const_view(src);
@@ -270,10 +320,10 @@ void conv2d_exec(Kernel const& ker, std::vector<float> const& kv, int n, int cy,
                     for (int kc = 0; kc < n; ++kc) {
                         int sx = x + cx - kc, sy = y + cy - kr;       // convolution: the kernel is flipped about its centre
                         if (sx < 0 || sx >= w || sy < 0 || sy >= h) continue;   // zero extension
-                        acc += cu::num(sv(sx, sy)[c]) * (double)kv[(size_t)kr * n + kc];
+                        acc += cu::num(sv(sx, sy)[sp[(size_t)c]]) * (double)kv[(size_t)kr * n + kc];     // c is a colour index
                     }
                 bool leaves = x + cx - (n - 1) < 0 || x + cx >= w || y + cy - (n - 1) < 0 || y + cy >= h;
-                ar.set(x, y, c, acc, leaves ? cu::K_B : cu::K_A);
+                ar.set(x, y, dp[(size_t)c], acc, leaves ? cu::K_B : cu::K_A);
             }
     double tol = exact ? 0.0 : 1e-4 * sumabs * 255.0;
     cu::cmp_result res = ar.compare(tol);
@@ -282,7 +332,7 @@ void conv2d_exec(Kernel const& ker, std::vector<float> const& kv, int n, int cy,
     if (res.outside_bad) vh::viol(vh::cat("outside-dst.", cls), ctx + res.first_outside);
     if (res.bad[cu::K_A]) vh::viol(vh::cat("conv2d-interior.", cls, ".", vc), ctx + res.first[cu::K_A]);
     if (res.bad[cu::K_B]) vh::viol(vh::cat("conv2d-edge.", cls, ".", vc), ctx + res.first[cu::K_B]);
-    if (!cu::same_bytes(src, snap)) vh::viol(vh::cat("src-modified.", cls), ctx + "source bytes changed");
+    if (values_of(gil::const_view(src)) != snap) vh::viol(vh::cat("src-modified.", cls), ctx + "source values changed");
     vh::evals(1);
     vh::distinct(1);
     vh::count("dst_pixels_checked", (uint64_t)res.checked);
@@ -401,6 +451,20 @@ int main(int argc, char** argv) {
     run_1d<R_rgb8f>();
 #elif C15_PART == 3
     run_1d<R_g16si>();
+#elif C15_PART == 4
+    run_1d<R_bgr_rgb>();
+#elif C15_PART == 5
+    run_1d<R_rgb_bgr>();
+#elif C15_PART == 6
+    run_1d<R_bgr_rgbacc_bgr>();
+#elif C15_PART == 7
+    run_1d<R_rgba_abgr>();
+#elif C15_PART == 8
+    run_1d<R_planar_bgr>();
+#elif C15_PART == 9
+    run_conv2d<gil::bgr8_image_t, gil::rgb32f_pixel_t>("bgr8-to-rgb32f");
+    run_conv2d<gil::rgba8_image_t, gil::abgr32f_pixel_t>("rgba8-to-abgr32f");
+    run_conv2d<gil::rgb8_planar_image_t, gil::bgr32f_pixel_t>("rgb8planar-to-bgr32f");
 #else
     run_1d<R_g32f>();
     run_conv2d<gil::gray8_image_t, gil::gray32f_pixel_t>("g8");
